@@ -5,12 +5,15 @@ import DarkluaModel.Rules.NoLocalFunction
 import DarkluaModel.Rules.FunctionToAssign
 import DarkluaModel.Rules.RemoveMethodCall
 import DarkluaModel.Rules.ConvertSquareRootCall
+import DarkluaModel.C16.Good
 /-!
 Line-protocol handlers for property C16:
 * `c16.rule <rule-name-hex> <block>` → transformed block | `unmodelled` | `unknown-rule` | `bad-request`
 * `c16.rules` → the modelled rule names
 * `c16.h <rule-name-hex> <block>` → `true`/`false`: is the program inside the decidable hypothesis
   of the rule's `_partial` theorem (`true` for the rules whose theorem has none)
+* `c16.good <rule-name-hex> <block>` → `true`/`false`/`none`: is the program inside the decidable hypothesis
+  of the rule's WHOLE-RULE theorem (`none`: the rule has no whole-rule theorem)
 * `c16.mentions <name-hex> <block>` → `true`/`false`: `FindVariables(name)` over the block
 * `c16.sqrtlaw <f64 wire>` → `true`/`false`: does `sqrt x = pow x 0.5` hold bit-exactly for this
   double on the executable `NumOps` instance (the hypothesis of `sqrt_call_exact`, per value)
@@ -33,9 +36,16 @@ def applyRule (name : String) (b : Block) : Option (Option Block) :=
 
 def hypothesis (name : String) (b : Block) : Option Bool :=
   match name with
-  | "group_local_assignment" => some (Rules.GroupLocal.programOk b)
   | "remove_method_call" => some (Rules.RemoveMethodCall.receiversStable b)
-  | "convert_local_function_to_assign" | "convert_function_to_assignment" | "convert_square_root_call" => some true
+  | "group_local_assignment" | "convert_local_function_to_assign" | "convert_function_to_assignment"
+  | "convert_square_root_call" => some true
+  | _ => none
+
+/-- hypothesis of the whole-rule theorem (`C16/Whole.lean`); same flags as `nlfFlags` / `ftaFlags` there -/
+def goodFor (name : String) (b : Block) : Option Bool :=
+  match name with
+  | "convert_local_function_to_assign" => some (Guard.Good ⟨false, true⟩ b)
+  | "convert_function_to_assignment" => some (Guard.Good ⟨true, false⟩ b)
   | _ => none
 
 def boolTok (b : Bool) : String := if b then "true" else "false"
@@ -57,6 +67,13 @@ def handle (op : String) (args : List String) : String :=
       match hypothesis n b with
       | some r => boolTok r
       | none => "unknown-rule"
+    | _, _ => "bad-request"
+  | "good", some [name, block] =>
+    match nameOfSexp? name, Block.ofSexp? block with
+    | some n, some b =>
+      match goodFor n b with
+      | some r => boolTok r
+      | none => "none"
     | _, _ => "bad-request"
   | "mentions", some [name, block] =>
     match nameOfSexp? name, Block.ofSexp? block with
